@@ -100,3 +100,57 @@ example : PureVal (recorder (fun n : List Int => n.foldl (· + ·) 0)) (fun n =>
   fun _ _ _ _ => rfl
 
 end Cpl.C03
+
+/-! ## Translation equivariance (periodic boundary)
+
+`evolve` level of `C01.pureRun_rotate`: rotating the ring handed to `evolve` rotates every row it
+returns, for every rule whose result depends only on the neighbourhood, in every supported mode.
+Rotation is core `List.rotateLeft` (position `c` of `cells.rotateLeft k` holds `cells[(c + k) % N]`). -/
+
+namespace Cpl.C03
+open Cpl Cpl.Spec
+
+variable {σ σ' α : Type}
+
+/-- **General form**: a whole history may be given (all its rows rotated); the two evolutions may even
+    use different rule objects / rule states / memoization modes as long as both compute `f`. -/
+theorem evolve_rotate_hist [DecidableEq α] [Inhabited α] (rule : Rule1 σ α) (rule' : Rule1 σ' α)
+    (f : List α → α) (hp : PureVal rule f) (hp' : PureVal rule' f) (mode mode' : Mode)
+    (hm : mode ≠ .bad) (hm' : mode' ≠ .bad) (hist : List (List α)) (init : List α)
+    (hlast : hist.getLast? = some init) (k T : Nat) (hT : 1 ≤ T) (r : Nat) (h1 : 1 ≤ r)
+    (h2 : r ≤ init.length) (s : σ) (s' : σ') :
+    (evolveFixed (hist.map (·.rotateLeft k)) T rule r mode s).map Prod.fst
+      = ((evolveFixed hist T rule' r mode' s').map Prod.fst).map (·.map (·.rotateLeft k)) := by
+  have hlast' : (hist.map (·.rotateLeft k)).getLast? = some (init.rotateLeft k) := by
+    rw [List.getLast?_map, hlast]; rfl
+  rw [evolveFixed_rows_pure rule f hp mode hm _ (init.rotateLeft k) hlast' T hT r h1
+      (by rw [C01.rotateLeft_length]; exact h2) s,
+    evolveFixed_rows_pure rule' f hp' mode' hm' hist init hlast T hT r h1 h2 s',
+    C01.pureRun_rotate f r k (T - 1) init h2]
+  simp [Except.map]
+
+/-- **`evolve` commutes with rotation of the initial ring**: for a rule computing the pure function `f`,
+    in every mode (off / True / 'recursive'), `1 ≤ r ≤ N`, `T ≥ 1` and every `k` (also `k ≥ N`). -/
+theorem evolve_rotate [DecidableEq α] [Inhabited α] (rule : Rule1 σ α) (f : List α → α)
+    (hp : PureVal rule f) (mode : Mode) (hm : mode ≠ .bad) (cells : List α) (k T : Nat) (hT : 1 ≤ T)
+    (r : Nat) (h1 : 1 ≤ r) (h2 : r ≤ cells.length) (s : σ) :
+    (evolveFixed [cells.rotateLeft k] T rule r mode s).map Prod.fst
+      = ((evolveFixed [cells] T rule r mode s).map Prod.fst).map (·.map (·.rotateLeft k)) := by
+  exact evolve_rotate_hist rule rule f hp hp mode mode hm hm [cells] cells rfl k T hT r h1 h2 s s
+
+/-- The same with both sides spelled out: the rows are the rotated rows of the pure run. -/
+theorem evolve_rotate_rows [DecidableEq α] [Inhabited α] (rule : Rule1 σ α) (f : List α → α)
+    (hp : PureVal rule f) (mode : Mode) (hm : mode ≠ .bad) (cells : List α) (k T : Nat) (hT : 1 ≤ T)
+    (r : Nat) (h1 : 1 ≤ r) (h2 : r ≤ cells.length) (s : σ) :
+    (evolveFixed [cells.rotateLeft k] T rule r mode s).map Prod.fst
+      = .ok ((cells :: pureRun f r (T - 1) cells).map (·.rotateLeft k)) := by
+  rw [evolve_rotate rule f hp mode hm cells k T hT r h1 h2 s,
+    evolveFixed_rows_pure rule f hp mode hm [cells] cells rfl T hT r h1 h2 s]
+  rfl
+
+/-! ### Non-vacuity (memoization on, recorder around an asymmetric rule, `k ≥ N`) -/
+example : ((evolveFixed [[1, 0, 0, 1, 0].rotateLeft 7] 3 (recorder (fun n : List Nat => (n[0]! + 2 * n[1]!) % 3)) 1
+      .memo []).map Prod.fst).toOption
+    = some ([[1, 0, 0, 1, 0], [2, 1, 0, 2, 1], [2, 1, 1, 1, 1]].map (·.rotateLeft 7)) := by decide
+
+end Cpl.C03
